@@ -1,4 +1,5 @@
 pub mod c01;
+pub mod c02;
 pub mod c03;
 pub mod c04;
 pub mod c17;
@@ -9,6 +10,7 @@ use std::path::Path;
 pub fn run(ctx: &Ctx) -> i32 {
     match ctx.property.as_str() {
         "C01" => c01::run(ctx),
+        "C02" => c02::run(ctx),
         "C03" => c03::run(ctx),
         "C04" => c04::run(ctx),
         "C17" => c17::run(ctx),
@@ -23,6 +25,7 @@ pub fn run(ctx: &Ctx) -> i32 {
 pub fn replay(ctx: &Ctx, file: &Path) -> i32 {
     let r = match ctx.property.as_str() {
         "C01" => ctx.replay_file(file, &|c: &str, case: &serde_json::Value| c01::replay_any(c, case, &ctx.known)),
+        "C02" => ctx.replay_file(file, &|c: &str, case: &serde_json::Value| c02::replay_any(c, case, &ctx.known)),
         "C03" => ctx.replay_file(file, &|c: &str, case: &serde_json::Value| c03::replay_any(c, case, &ctx.known)),
         "C04" => ctx.replay_file(file, &|c: &str, case: &serde_json::Value| c04::replay_any(c, case, &ctx.known)),
         "C17" => ctx.replay_file(file, &|_c: &str, case: &serde_json::Value| {
